@@ -185,6 +185,59 @@ unsafe fn reconfigure_cycle() {
     }
 }
 
+/// the way a front end really uses the interface: every suggestion is read out and freed before the next event, so the next
+/// suggestion is usually allocated where the previous one was (system allocator).  Whatever the library keeps per address or
+/// per index across calls shows up as a string that differs from the Rust API value.
+unsafe fn eager_cycle(phonetic: bool, suggestions: bool, ansi: bool, keys: &[u16], backspaces: usize) {
+    let cfg = riti_config_new();
+    let l = if phonetic { CString::new("avro_phonetic").unwrap() } else { CString::new(std::env::var("VERIF_SYNTH_LAYOUT").unwrap()).unwrap() };
+    assert!(riti_config_set_layout_file(cfg, l.as_ptr()));
+    riti_config_set_phonetic_suggestion(cfg, suggestions);
+    riti_config_set_fixed_suggestion(cfg, suggestions);
+    riti_config_set_ansi_encoding(cfg, ansi);
+    let ctx = riti_context_new_with_config(cfg);
+    for round in 0..2 {
+        for k in keys {
+            let s = riti_get_suggestion_for_key(ctx, *k, 0, 0);
+            let strings = read_out(s);
+            let again = read_out(s);
+            recheck_and_free(strings);
+            recheck_and_free(again);
+            riti_suggestion_free(s);
+        }
+        for _ in 0..backspaces {
+            let s = riti_context_backspace_event(ctx, false);
+            let strings = read_out(s);
+            recheck_and_free(strings);
+            riti_suggestion_free(s);
+        }
+        if round == 0 { riti_context_finish_input_session(ctx); }
+    }
+    riti_context_free(ctx);
+    riti_config_free(cfg);
+}
+
+#[test]
+fn ffi_eager_free_life_cycle() {
+    unsafe {
+        std::env::set_var("XDG_DATA_HOME", "/nonexistent/riti-verif-miri");
+        for ansi in [true, false] {
+            // "a", "am", "ami": three different texts at index 0, each in a suggestion allocated after the previous one was freed
+            eager_cycle(true, false, ansi, &[VC_A, VC_M, VC_I], 2);
+            // fixed layout, single-string suggestions (t = ক, p = া, i = ত)
+            eager_cycle(false, false, ansi, &[0xA0A9, 0xA0A5, 0xA09E], 1);
+        }
+        let thorough = std::env::var("VERIF_TIER").map(|t| t == "thorough").unwrap_or(false);
+        if thorough || !cfg!(miri) {
+            // list-style suggestions (dictionary loaded: slow under Miri, quick natively)
+            for ansi in [true, false] {
+                eager_cycle(true, true, ansi, &[VC_A, VC_M, VC_I], 2);
+                eager_cycle(false, true, ansi, &[0xA0A9, 0xA0A5, 0xA09E], 1);
+            }
+        }
+    }
+}
+
 #[test]
 fn ffi_reconfigure_life_cycle() {
     unsafe {
